@@ -29,6 +29,7 @@ EDGE_KINDS = {
     'b': [(2, 1.0)],
     '2a': [(1, 2.0)],
     'a-b': [(1, 1.0), (2, -1.0)],
+    'a~': [(1, 1.0 + 2.0 ** -27)],     # differs from 'a' by 7.5e-9: equal only under a tolerant comparison
 }
 # scrambled, non-contiguous ids
 NODE_IDS = [7, 3, 12, 5, 9, 20, 1, 15]
@@ -76,16 +77,20 @@ def _edge_layer_choices(w0, w1, kinds, allow_parallel):
 
 def initial_descs(tier):
     kinds = ['a', 'b', '2a', 'a-b']
+    kinds_t = kinds + ['a~']
     out = []
     # L = 1
-    for el in _edge_layer_choices(1, 1, kinds, True):
+    for el in _edge_layer_choices(1, 1, kinds_t, True):
         out.append({'widths': [], 'charges': [], 'edges': [el]})
     # L = 2
     for w in (1, 2):
         for ch in itertools.product((0, 1), repeat=w):
-            for e0 in _edge_layer_choices(1, w, kinds, tier != 'quick' and w == 1):
-                for e1 in _edge_layer_choices(w, 1, kinds, tier != 'quick' and w == 1):
+            for e0 in _edge_layer_choices(1, w, kinds_t if w == 1 else kinds, tier != 'quick' and w == 1):
+                for e1 in _edge_layer_choices(w, 1, kinds_t if w == 1 else kinds, tier != 'quick' and w == 1):
                     out.append({'widths': [w], 'charges': [list(ch)], 'edges': [e0, e1]})
+    for ch in itertools.product((0, 1), repeat=2):
+        out.append({'widths': [2], 'charges': [list(ch)], 'edges': [[(0, 0, 'a'), (0, 1, 'a~')], [(0, 0, 'b'), (1, 0, 'b')]]})
+        out.append({'widths': [2], 'charges': [list(ch)], 'edges': [[(0, 0, 'b'), (0, 1, 'b')], [(0, 0, 'a~'), (1, 0, 'a')]]})
     # L = 3 (smaller edge alphabet)
     k3 = ['a', 'b']
     wl = [(1, 1), (1, 2), (2, 1)] if tier == 'quick' else [(1, 1), (1, 2), (2, 1), (2, 2)]
